@@ -92,8 +92,8 @@ func (h hdrT) signedHeader() signed.Header {
 func zt(v int64) string { return fmt.Sprintf("(%d)%%Z", v) }
 
 func (h hdrT) term() string {
-	return fmt.Sprintf("(Signed.mkh %d %s (%s, %s) %s %s)", h.Algo, vgen.Bytes(h.KeyID), zt(h.Sec),
-		zt(int64(h.Nsec)), vgen.Bytes(h.Meta), zt(int64(h.ADLen)))
+	return fmt.Sprintf("(Signed.mkh %d %s (%s, %s) %s %s)", h.Algo, hx(h.KeyID), zt(h.Sec),
+		zt(int64(h.Nsec)), hx(h.Meta), zt(int64(h.ADLen)))
 }
 
 func obsTerm(m *signed.Message) string {
@@ -103,10 +103,18 @@ func obsTerm(m *signed.Message) string {
 	h := hdrT{Algo: int(m.Header.SignatureAlgorithm), KeyID: m.Header.VerificationKeyID,
 		Sec: m.Header.Timestamp.Unix(), Nsec: m.Header.Timestamp.Nanosecond(), Meta: m.Header.Metadata,
 		ADLen: m.Header.AssociatedDataLength}
-	return fmt.Sprintf("(Some (%s, %s))", h.term(), vgen.Bytes(m.Body))
+	return fmt.Sprintf("(Some (%s, %s))", h.term(), hx(m.Body))
 }
 
-func adTerm(ad [][]byte) string { return vgen.ListOf(ad, vgen.Bytes) }
+func adTerm(ad [][]byte) string { return vgen.ListOf(ad, hx) }
+
+// hx prints a byte string as the compact literal of Lib/HexLit.v.
+func hx(b []byte) string {
+	if len(b) == 0 {
+		return "[]"
+	}
+	return fmt.Sprintf("(Hx %d 0x%s)", len(b), hex.EncodeToString(b))
+}
 
 func cat(ad [][]byte) []byte {
 	var out []byte
@@ -143,8 +151,9 @@ func digest(hid int, raw []byte) []byte {
 }
 
 // table returns the accepted (key id, hash id :: raw input, signature) triples for
-// verification key k over hb || cat(ad) and sg, for each of the three hashes.
-func table(k *key, hb, sg []byte, ad [][]byte) (string, int) {
+// verification key k over hb || cat(ad) and sg, for each of the three hashes.  The
+// Gallina text of hb, ad and sg is passed in so that the entries reuse it.
+func table(k *key, hb, sg []byte, ad [][]byte, hbE, sgE, adE string) (string, int) {
 	if k == nil || k.kind != 1 {
 		return "[]", 0
 	}
@@ -152,11 +161,38 @@ func table(k *key, hb, sg []byte, ad [][]byte) (string, int) {
 	var ents []string
 	for hid := 1; hid <= 3; hid++ {
 		if ecdsa.VerifyASN1(k.pub.(*ecdsa.PublicKey), digest(hid, raw), sg) {
-			ents = append(ents, fmt.Sprintf("(%d, %s, %s)", k.id, vgen.Bytes(append([]byte{byte(hid)}, raw...)),
-				vgen.Bytes(sg)))
+			ents = append(ents, fmt.Sprintf("(%d, (%d :: (%s ++ concat %s)), %s)", k.id, hid, hbE, adE, sgE))
 		}
 	}
 	return vgen.List(ents), len(ents)
+}
+
+// rel prints b relative to the named byte string orig (defined in the prelude).
+func rel(name string, orig, b []byte) string {
+	if name != "" && len(orig) > 3 {
+		if bytes.Equal(orig, b) {
+			return name
+		}
+		if len(orig) == len(b) {
+			diff, pos := 0, 0
+			for i := range b {
+				if b[i] != orig[i] {
+					diff++
+					pos = i
+				}
+			}
+			if diff == 1 {
+				return fmt.Sprintf("(setb %s %d %d)", name, pos, b[pos])
+			}
+		}
+		if len(b) < len(orig) && len(b) > 0 && bytes.Equal(orig[:len(b)], b) {
+			return fmt.Sprintf("(firstn %d %s)", len(b), name)
+		}
+		if len(b) > len(orig) && bytes.Equal(b[:len(orig)], orig) {
+			return fmt.Sprintf("(%s ++ %s)", name, hx(b[len(orig):]))
+		}
+	}
+	return hx(b)
 }
 
 func realVerify(hb, sg []byte, k *key, ad [][]byte) (m *signed.Message, parsed bool, panicked bool, msg string) {
@@ -275,6 +311,21 @@ type base struct {
 	ad   [][]byte
 	hb   []byte
 	sg   []byte
+	name string // prefix of the prelude definitions of this base
+}
+
+// relAD prints an AD list, reusing the base's chunk definitions.
+func (b *base) relAD(ad [][]byte) string {
+	out := make([]string, len(ad))
+	for i, c := range ad {
+		out[i] = hx(c)
+		for j, o := range b.ad {
+			if e := rel(fmt.Sprintf("%s_ad%d", b.name, j), o, c); len(e) < len(out[i]) {
+				out[i] = e
+			}
+		}
+	}
+	return vgen.List(out)
 }
 
 func shortKey(parts ...any) string {
@@ -284,7 +335,7 @@ func shortKey(parts ...any) string {
 
 func main() {
 	run := vgen.Flags("C38")
-	run.Imports = []string{"Model.Signed"}
+	run.Imports = []string{"Lib.HexLit", "Model.Signed"}
 	run.CheckFn = "Signed.check"
 	run.DiagFn = "Signed.diag"
 	run.CaseType = "Signed.case"
@@ -322,9 +373,11 @@ func main() {
 	nilKey := &key{kind: 0, name: "nil"}
 
 	// ------------------------------------------------------------ 1. Sign
+	nextID := 0 // id the next Add / Skip will consume (for violations reported before Add)
 	addSign := func(k *key, h hdrT, body []byte, ad [][]byte, what string) {
 		if !run.Want() {
 			run.Skip()
+			nextID++
 			return
 		}
 		var sm *cryptopb.SignedMessage
@@ -337,27 +390,31 @@ func main() {
 		desc := map[string]any{"what": what, "key": k.name, "hdr": h, "body": hex.EncodeToString(body),
 			"ad": fmt.Sprintf("%x", ad)}
 		if p {
-			run.Violate(-1, "Sign panicked: "+msg, desc)
+			run.Violate(nextID, "Sign panicked: "+msg, desc)
+			nextID++
 			run.Skip()
 			return
 		}
 		ok := serr == nil
 		var hb []byte
+		badSig := false
 		if ok {
 			hb = sm.HeaderAndBody
 			// the produced signature must be a real one over header-and-body || AD
 			if k.kind == 1 {
 				raw := append(clone(hb), cat(ad)...)
 				hid := h.Algo
-				if !ecdsa.VerifyASN1(k.pub.(*ecdsa.PublicKey), digest(hid, raw), sm.Signature) {
-					run.Violate(-1, "Sign produced a signature that crypto/ecdsa rejects over hb||ad", desc)
-				}
+				badSig = !ecdsa.VerifyASN1(k.pub.(*ecdsa.PublicKey), digest(hid, raw), sm.Signature)
 			}
 		}
 		desc["impl_ok"] = ok
 		run.Tally(fmt.Sprintf("sign:%v", ok))
-		run.Add("sign", vgen.App("Signed.CSign", k.term(), h.term(), vgen.Bytes(body), adTerm(ad), vgen.B(ok),
-			vgen.Bytes(hb)), shortKey(what, k.name, h, body, ad), true, desc)
+		id := run.Add("sign", vgen.App("Signed.CSign", k.term(), h.term(), hx(body), adTerm(ad), vgen.B(ok),
+			hx(hb)), shortKey(what, k.name, h, body, ad), true, desc)
+		nextID = id + 1
+		if badSig {
+			run.Violate(id, "Sign produced a signature that crypto/ecdsa rejects over hb||ad", desc)
+		}
 	}
 	signers := []*key{nilKey, ecKeys[3], ecKeys[0], ecKeys[1], ecKeys[2], edKey, rsaKey}
 	sr := rng.Fork(11)
@@ -391,10 +448,12 @@ func main() {
 	addVerify := func(b *base, class string, hb2, sg2 []byte, ad2 [][]byte, k2 *key, tags ...string) {
 		if !run.Want() {
 			run.Skip()
+			nextID++
 			return
 		}
 		m, parsed, p, msg := realVerify(hb2, sg2, k2, ad2)
-		tbl, nacc := table(k2, hb2, sg2, ad2)
+		hbE, sgE, adE := rel(b.name+"_hb", b.hb, hb2), rel(b.name+"_sg", b.sg, sg2), b.relAD(ad2)
+		tbl, nacc := table(k2, hb2, sg2, ad2, hbE, sgE, adE)
 		cad := cat(b.ad)
 		// known-finding classes, decided from the input
 		if !bytes.Equal(hb2, b.hb) && bytes.Equal(append(clone(hb2), cat(ad2)...), append(clone(b.hb), cad...)) {
@@ -405,23 +464,37 @@ func main() {
 			"sig": hex.EncodeToString(b.sg), "hb2": hex.EncodeToString(hb2), "sig2": hex.EncodeToString(sg2),
 			"ad2": fmt.Sprintf("%x", ad2), "impl_ok": m != nil, "crypto_accepts": nacc}
 		if p {
-			run.Violate(-1, "Verify panicked: "+msg, desc, tags...)
+			run.Violate(nextID, "Verify panicked: "+msg, desc, tags...)
+			nextID++
 			run.Skip()
 			return
 		}
 		run.Tally("verify:" + class)
 		run.Tally(fmt.Sprintf("verify-accepted:%v", m != nil))
-		run.Add("verify", vgen.App("Signed.CVerify", b.h.term(), vgen.Bytes(b.body), vgen.Bytes(cad),
-			vgen.N(uint64(b.k.id)), vgen.Bytes(b.hb), vgen.Bytes(b.sg), vgen.Bytes(hb2), vgen.Bytes(sg2),
-			adTerm(ad2), k2.term(), tbl, obsTerm(m)),
+		n := b.name
+		nextID++
+		run.Add("verify", vgen.App("Signed.CVerify", n+"_h", n+"_body", n+"_cad",
+			vgen.N(uint64(b.k.id)), n+"_hb", n+"_sg", hbE, sgE, adE, k2.term(), tbl, obsTerm(m)),
 			shortKey(class, b.k.name, k2.name, b.h, b.body, b.ad, hb2, len(sg2), ad2), parsed, desc, tags...)
 	}
+	nbase := 0
 	mkBase := func(r *vgen.Rand, k *key, h hdrT, body []byte, ad [][]byte) *base {
 		sm, err := signed.Sign(h.signedHeader(), body, k.signer, ad...)
 		if err != nil {
 			panic(fmt.Sprint("base Sign failed: ", err))
 		}
-		return &base{k: k, h: h, body: body, ad: ad, hb: sm.HeaderAndBody, sg: sm.Signature}
+		b := &base{k: k, h: h, body: body, ad: ad, hb: sm.HeaderAndBody, sg: sm.Signature,
+			name: fmt.Sprintf("b%d", nbase)}
+		nbase++
+		var sb strings.Builder
+		fmt.Fprintf(&sb, "Definition %s_h := %s.\nDefinition %s_body : list N := %s.\nDefinition %s_cad : list N := %s.\n",
+			b.name, h.term(), b.name, hx(body), b.name, hx(cat(ad)))
+		fmt.Fprintf(&sb, "Definition %s_hb : list N := %s.\nDefinition %s_sg : list N := %s.\n", b.name, hx(b.hb), b.name, hx(b.sg))
+		for j, c := range ad {
+			fmt.Fprintf(&sb, "Definition %s_ad%d : list N := %s.\n", b.name, j, hx(c))
+		}
+		run.Prelude += sb.String()
+		return b
 	}
 	otherKey := func(r *vgen.Rand, k *key, sameCurve bool) *key {
 		for {
@@ -599,20 +672,23 @@ func main() {
 	addRaw := func(class string, hb, sg []byte, ad [][]byte, k *key) {
 		if !run.Want() {
 			run.Skip()
+			nextID++
 			return
 		}
 		m, parsed, p, msg := realVerify(hb, sg, k, ad)
-		tbl, nacc := table(k, hb, sg, ad)
+		tbl, nacc := table(k, hb, sg, ad, hx(hb), hx(sg), adTerm(ad))
 		desc := map[string]any{"class": class, "verify_key": k.name, "hb": hex.EncodeToString(hb),
 			"sig": hex.EncodeToString(sg), "ad": fmt.Sprintf("%x", ad), "impl_ok": m != nil, "crypto_accepts": nacc}
 		if p {
-			run.Violate(-1, "Verify panicked: "+msg, desc)
+			run.Violate(nextID, "Verify panicked: "+msg, desc)
+			nextID++
 			run.Skip()
 			return
 		}
 		run.Tally("raw:" + class)
 		run.Tally(fmt.Sprintf("raw-accepted:%v", m != nil))
-		run.Add("raw", vgen.App("Signed.CRaw", vgen.Bytes(hb), vgen.Bytes(sg), adTerm(ad), k.term(), tbl,
+		nextID++
+		run.Add("raw", vgen.App("Signed.CRaw", hx(hb), hx(sg), adTerm(ad), k.term(), tbl,
 			obsTerm(m)), shortKey(class, k.name, hb, ad), parsed, desc)
 	}
 	nr := run.Count(120, 6000)
@@ -621,7 +697,7 @@ func main() {
 		k := vgen.Pick(r, ecKeys...)
 		ad := genAD(r)
 		class := vgen.Pick(r, "algo", "algo", "dup-fields", "unknown-fields", "group", "ts-merge", "ts-range",
-			"adlen-range", "garbage")
+			"adlen-range", "adlen-off", "adlen-off", "garbage")
 		h := genHdr(r, r.Range(1, 3), ad)
 		hasTS := !(h.Sec == zeroSec && h.Nsec == 0)
 		body := genBytes(r, 0, 10)
@@ -673,6 +749,9 @@ func main() {
 			hasTS = true
 			h.Sec = vgen.Pick(r, int64(1<<63-1), -(1 << 63), 1<<62, 0, -1)
 			h.Nsec = vgen.Pick(r, -1, 1000000000, 2147483647, -2147483648, 1999999999, 0)
+		case "adlen-off":
+			// validly signed, but the header states another AD length than what is supplied
+			h.ADLen += vgen.Pick(r, -1, 1, 2, -len(cat(ad)), 7)
 		case "adlen-range":
 			extra = protowire.AppendVarint(protowire.AppendTag(nil, 5, protowire.VarintType),
 				vgen.Pick(r, uint64(1<<31), 1<<32, 1<<63, 1<<64-1, uint64(len(cat(ad)))+1<<32))
@@ -694,7 +773,6 @@ func main() {
 		}
 		addRaw(class, hb, sg, ad, vk)
 	}
-	_ = strings.Join
 	run.Finish()
 }
 
